@@ -387,7 +387,10 @@ class Engine:
         ty = ty.strip()
         if ty.startswith("t.Optional[") or ty.startswith("Optional["):
             inner = ty[ty.index("[") + 1:-1]
-            val = self.fresh_of_type(inner, p, module, name)
+            try:
+                val = self.fresh_of_type(inner, p, module, name)
+            except RecursionError:
+                return NONE        # a recursive object type (writer -> parent writer -> ...) is cut after one level
             return VOpt(fresh(B, name + "_none"), val)
         if ty in ("int",) or ty.startswith("t.Union[TypeTagNumber") or ty.startswith("t.Union[int"):
             return VInt(fresh(I, name))
@@ -443,6 +446,16 @@ class Engine:
     object_fields = {}
 
     def fresh_object(self, ci, p, name):
+        stack = self.__dict__.setdefault("_fresh_stack", [])
+        if stack.count(ci.key) >= 2:
+            raise RecursionError
+        stack.append(ci.key)
+        try:
+            return self._fresh_object(ci, p, name)
+        finally:
+            stack.pop()
+
+    def _fresh_object(self, ci, p, name):
         o = VObj(ci)
         decl = None
         for c in self.prog.mro(ci):
